@@ -2,7 +2,7 @@
    option, unit, list, prod, sumbool, sumor map to the OCaml types; N, Z,
    positive, nat stay the extracted inductives. No Extract Constant. *)
 From Coq Require Import Extraction ExtrOcamlBasic.
-Require Import Base Value PrintOptions Printer Sink Float NumberOps ListOps ParseOptions Utf8 Reader Scan Num Parser SerdeModel Macro.
+Require Import Base Value PrintOptions Printer Sink Float NumberOps ListOps ParseOptions Utf8 Reader Scan Num Parser DatumRef SerdeModel Macro.
 
 Extraction "model.ml"
   s2b beq_bytes value_eqb build vlist
@@ -19,4 +19,5 @@ Extraction "model.ml"
   default_ro elisp_ro new_ro all_ro mk_reader bytes_events init_state fuel_for
   from_trait datum_from_trait next_value next_datum expect_value expect_datum expect_end
   run_history iterate_values iterate_datums classify classify_code
+  datum_ref ref_span ref_list_iter ref_list_next ref_list_peek ref_list_is_empty ref_drain ref_vector_iter ref_as_pair
   ser de macro_parse meval.
